@@ -9,6 +9,24 @@ Decidable(e) == ~e.case.o.mad \/ MadDecidable(e.case.table, e.case.px, e.case.o)
 
 (* bl.balance: balance_cooler / `cooler balance` on integer data *)
 ScopeOf(t, o, i) == IF o.mode = "cis" THEN ChromBins(t, ChromOf(t, i)) ELSE AllBins(t)
+(* trans-only witness (two chromosomes of equal size, every bin with inter-chromosomal marginal T, rescaling on): the
+   property asks for row sums 1 of W * A_trans * W, i.e. weights 1 / sqrt(T).  The pinned code multiplies the weights by
+   a chromosome-size factor (2 here) inside the iteration only and returns 1 / sqrt(4T): row sums 1/4 (known finding F19);
+   TLC names the clause after what it saw, so that any OTHER wrong value is still a fresh violation. *)
+TransWitness(e) ==
+  LET t == e.case.table
+      px == e.case.px
+      o == e.case.o
+      D == BinsWithData(t, px, o, AllBins(t))
+      T == LiveMarg(t, px, o, CHOOSE i \in D : TRUE)
+      want == 2 ^ (8 - SqrtExp(T))
+      pinned == 2 ^ (8 - SqrtExp(4 * T))
+      AllAre(x) == \A i \in Bins(e) : ~IsNaN(t, px, o, i) => e.obs.w[i + 1] = x
+  IN
+  IF SqrtExp(T) < 0 \/ SqrtExp(4 * T) < 0 \/ ~o.rescale THEN << <<"witnessCaseIsWitness", FALSE>> >>
+  ELSE IF AllAre(pinned) THEN << <<"transOnlyRowSumsAreOne:weightsOmitChromosomeFactor", FALSE>> >>
+  ELSE << <<"transOnlyRowSumsAreOne", AllAre(want)>> >>
+
 BalanceClauses(e) ==
   LET t == e.case.table
       px == e.case.px
@@ -22,7 +40,7 @@ BalanceClauses(e) ==
      <<"nanSetIsFilterSet", \A i \in Bins(e) : e.obs.nan[i + 1] = IsNaN(t, px, o, i)>>,
      <<"othersFinitePositive", \A i \in Bins(e) : e.obs.nan[i + 1] \/ e.obs.finite_pos[i + 1]>>,
      <<"storedEqualsReturned", ~e.case.store \/ e.obs.stored_same>>,
-     <<"witnessWeightsExact", \A i \in Bins(e) :
+     <<"witnessWeightsExact", o.mode = "trans" \/ \A i \in Bins(e) :
           (~IsNaN(t, px, o, i) /\ WitnessScale(t, px, o, ScopeOf(t, o, i)) > 0) =>
              e.obs.w[i + 1] = WitnessWeightScaled(WitnessScale(t, px, o, ScopeOf(t, o, i)), o.rescale)>>,
      <<"witnessScaleAndConvergence",
@@ -30,8 +48,12 @@ BalanceClauses(e) ==
             THEN \A c \in 0..(NChroms(t) - 1) :
                    WitnessScale(t, px, o, ChromBins(t, c)) > 0 =>
                      (e.obs.scale[c + 1] = WitnessScale(t, px, o, ChromBins(t, c)) /\ e.obs.converged[c + 1])
+          ELSE IF o.mode = "trans"
+            THEN WitnessScale(t, px, o, AllBins(t)) > 0 => e.obs.converged[1]
             ELSE WitnessScale(t, px, o, AllBins(t)) > 0 =>
                      (e.obs.scale[1] = WitnessScale(t, px, o, AllBins(t)) /\ e.obs.converged[1])>> >>
+  \o (IF o.mode = "trans" /\ e.case.witness THEN TransWitness(e) ELSE <<>>)
+
 
 (* bl.pipeline: split(...).prepare().pipe(filters).pipe(marginalize).reduce(add) through a recording map *)
 RowsIn(px, span) == SubSeq(px, span[1] + 1, span[2])
@@ -47,6 +69,8 @@ PipelineClauses(e) ==
      <<"partialIsMargOfSpan", All(e.obs.results, LAMBDA r : r.partial = MargVec(t, RowsIn(px, Clip(r.key, nnz)), o))>>,
      <<"eachSpanOnce", {r.key : r \in Range(e.obs.results)} = Range(e.obs.keys) /\ Len(e.obs.results) = Len(e.obs.keys)>>,
      <<"foldIsTotal", e.obs.total = MargVec(t, px, o)>>,
+     <<"repeatedRunSame", e.obs.total2 = MargVec(t, px, o)>>,
+     <<"secondBranchSeesEveryPixel", e.obs.branch_seen = nnz>>,
      <<"drift:spansAsModel", ~e.case.default_spans \/ e.obs.keys = Partition(0, nnz, e.case.chunk)>> >>
 
 (* bl.schedules: the same balancing run for several chunk sizes and map implementations *)
